@@ -726,7 +726,7 @@ pub fn run_books(tier: Tier, which: &str) -> Result<(MigOut, Vec<(String, crate:
                                     out.migrate_calls += 1;
                                     // with no overrides the migrated twin must be the native state itself
                                     out.c("C15/migrated-twin-vs-original-state");
-                                    let d = || json!({"kind": "migrate", "store": store_value(&twin), "stored_version": "0.19.0", "migrate": {}, "shape": [0, 0, 0, 0, 0], "native_store": store_value(&h.store), "path": h.path});
+                                    let d = || json!({"kind": "migrate", "store": store_value(&twin), "stored_version": "0.19.0", "migrate": {}, "shape": [0, 0, 0, 0, 0], "native_store": store_value(&h.store), "path": h.path, "setup": scen.cfg.setup_value(&[])});
                                     if !sem_eq(&a.store, &h.store) {
                                         out.v("C15", "C15/migrated-twin-is-not-the-native-state".into(), "store after migrating the old-format twin differs from the state the history produced natively".into(), d());
                                     }
@@ -916,7 +916,7 @@ pub fn replay(doc: &Value) -> Result<(bool, Vec<String>), String> {
             if !sem_eq(&a.store, &native) {
                 out.v("C15", "C15/migrated-twin-is-not-the-native-state".into(), String::new(), Value::Null);
             }
-            let cfg = Cfg::new(0, 2, ("0.25", "0.25"), "R0");
+            let cfg = doc.get("setup").and_then(Cfg::from_setup).map(|x| x.0).unwrap_or_else(|| Cfg::new(0, 2, ("0.25", "0.25"), "R0"));
             let sc = scen("replay", cfg, menu_p1(0, 0), vec![]);
             behaves_like_native(&sc, &a.store, &native, &mut out, &|| Value::Null);
         }
